@@ -513,6 +513,11 @@ func classifyFieldUse(fa *ssa.FieldAddr) []fieldUse {
 						if isRefType(x.Type()) {
 							u.escapes = "returned"
 						}
+					case *ssa.Store, *ssa.Phi, *ssa.MakeInterface, *ssa.ChangeType:
+						// through a result slot (defer spills results), a merge or an interface value
+						if isRefType(x.Type()) && u.escapes == "" {
+							u.escapes = refEscape(x, 0, map[ssa.Value]bool{})
+						}
 					case *ssa.Call:
 						if b, ok := y.Call.Value.(*ssa.Builtin); ok && b.Name() == "delete" {
 							u = fieldUse{kind: "map-delete", write: true}
@@ -528,6 +533,57 @@ func classifyFieldUse(fa *ssa.FieldAddr) []fieldUse {
 		}
 	}
 	return out
+}
+
+// refEscape follows a reference loaded from a guarded field through local slots, merges and
+// interface conversions: "returned" when it reaches a return, "stored" when it is stored into
+// memory other than a local variable.
+func refEscape(v ssa.Value, depth int, seen map[ssa.Value]bool) string {
+	if depth > 6 || seen[v] || v.Referrers() == nil {
+		return ""
+	}
+	seen[v] = true
+	for _, r := range *v.Referrers() {
+		switch y := r.(type) {
+		case *ssa.Return:
+			return "returned"
+		case *ssa.Store:
+			if y.Val != v {
+				continue
+			}
+			al, isLocal := y.Addr.(*ssa.Alloc)
+			if !isLocal {
+				if fa, ok := y.Addr.(*ssa.FieldAddr); ok {
+					if _, fresh := fa.X.(*ssa.Alloc); fresh {
+						continue // a field of an object built here (e.g. a copy being assembled)
+					}
+				}
+				return "stored"
+			}
+			if al.Referrers() != nil {
+				for _, rr := range *al.Referrers() {
+					if ld, ok := rr.(*ssa.UnOp); ok && ld.Op == token.MUL {
+						if e := refEscape(ld, depth+1, seen); e != "" {
+							return e
+						}
+					}
+				}
+			}
+		case *ssa.Phi:
+			if e := refEscape(y, depth+1, seen); e != "" {
+				return e
+			}
+		case *ssa.MakeInterface:
+			if e := refEscape(y, depth+1, seen); e != "" {
+				return e
+			}
+		case *ssa.ChangeType:
+			if e := refEscape(y, depth+1, seen); e != "" {
+				return e
+			}
+		}
+	}
+	return ""
 }
 
 func isRefType(t types.Type) bool {
